@@ -432,7 +432,75 @@ def unit_na(unit):
                             agg.violation(V(f"dropna.after-subset.{sl_name}", "does-not-match-isna", c3, [e for e in want_vals if e is not None], gd2))
                         else:
                             agg.outcomes["subset-na-agree"] += 1
+                    # a returned mask / result belongs to the caller: editing it must not change what the vector answers next
+                    for which in ("isna", "dropna", "fillna"):
+                        agg.evals += 1; agg.transitions += 4; agg.compared += 1
+                        c4 = dict(case, history=[f"r = v.{which}()", "edit r in place", "ask v again"])
+                        try:
+                            p = Vector(xs)
+                            r = p.isna() if which == "isna" else (p.dropna() if which == "dropna" else p.fillna(FILL[kind][0][1]))
+                            if len(r):
+                                if which == "isna":
+                                    r[0] = not r._underlying[0]
+                                    r[[True] * len(r)] = [not b for b in r._underlying]
+                                else:
+                                    r[0] = r._underlying[-1]
+                            gi3 = vec_list(p.isna())
+                            gd3 = vec_list(p.dropna())
+                            gf3 = vec_list(p.fillna(FILL[kind][0][1]))
+                        except Exception as e:
+                            agg.violation(V(f"{which}.result-edited", "raises-" + type(e).__name__, c4, None, repr(e)[:80]))
+                            continue
+                        fillv = FILL[kind][0][1]
+                        if (gi3 != [e is None for e in xs] or gd3 is None or not same_list(gd3, [e for e in xs if e is not None])
+                                or gf3 is None or not same_list(gf3, [fillv if e is None else e for e in xs]) or not same_list(list(p._underlying), xs)):
+                            agg.violation(V(f"{which}.result-edited", "editing-a-returned-result-changed-the-vector-or-its-answers", c4,
+                                            {"isna": [e is None for e in xs]}, {"isna": gi3, "dropna": gd3, "fillna": gf3}))
+                        else:
+                            agg.outcomes["result-edit-agree"] += 1
     agg.sample({"isna/dropna/fillna": kind, "N": N})
+    return agg
+
+
+def unit_reduce_hist(unit):
+    """reduce, edit in place twice (the second edit stores None), reduce again - run under CPython-like identity recycling"""
+    from serif import Vector
+    _, kind, policy = unit
+    core.reset_globals(policy)
+    agg = Agg()
+    fns = ["sum", "mean", "min", "max", "stdev", "any", "all"] if kind in ("int", "float", "bool") else ["min", "max"]
+    for n in (3, 4, 5):
+        base = list(BASE[kind][0][:n]) + list(BASE[kind][1][:max(0, n - 4)])
+        base = (base * 2)[:n]
+        for i in range(n):
+            for j in range(n):
+                for first in ("same", "none"):
+                    agg.states += 1; agg.nontrivial += 1
+                    for fn in fns:
+                        agg.evals += 1; agg.transitions += 4; agg.compared += 1
+                        case = {"kind": kind, "values": base, "reduction": fn, "allocator": policy,
+                                "history": [fn, f"v[{i}] = other value", f"v[{j}] = None", fn]}
+                        try:
+                            v = Vector(list(base))
+                            getattr(v, fn)()
+                            cur = list(base)
+                            if first == "same":
+                                v[i] = base[(i + 1) % n]; cur[i] = base[(i + 1) % n]
+                            else:
+                                v[i] = None; cur[i] = None
+                            v[j] = None; cur[j] = None
+                            clean = [x for x in cur if x is not None]
+                            if fn in ("min", "max") and not clean:
+                                continue
+                            got = getattr(v, fn)()
+                        except Exception as e:
+                            agg.violation(V(f"reduce.{fn}.after-writes", "raises-" + type(e).__name__, case, None, repr(e)[:80]))
+                            continue
+                        want = ref_reduce(fn, clean)
+                        if not red_close(got, want):
+                            agg.violation(V(f"reduce.{fn}.after-writes", "none-not-skipped-after-in-place-writes", case, want, got))
+                        else:
+                            agg.outcomes["reduce-history-agree"] += 1
     return agg
 
 
@@ -455,7 +523,7 @@ def unit_groups(unit):
 
 
 def run_unit(unit):
-    return {"arith": unit_arith, "cmp": unit_compare, "red": unit_reduce, "na": unit_na, "grp": unit_groups}[unit[0]](unit)
+    return {"arith": unit_arith, "cmp": unit_compare, "red": unit_reduce, "na": unit_na, "grp": unit_groups, "redh": unit_reduce_hist}[unit[0]](unit)
 
 
 def check(ctx):
@@ -465,6 +533,7 @@ def check(ctx):
     units += [("red", k, N + 1) for k in BASE]
     units += [("na", k, N + 1) for k in list(BASE) + ["object"]]
     units += [("grp", "str", n) for n in range(1, 4)]
+    units += [("redh", k, pol) for k in ("int", "float", "str", "date") for pol in ("fresh", "recycle")]
     agg = core.merge_all(core.pmap(run_unit, units))
     agg.notes["bound"] = f"arith/compare operands len<={N}, reductions and na-ops len<={N+1}, every None subset"
     agg.notes["exhaustive"] = True
